@@ -1,23 +1,78 @@
 import PyseqmVerif.Properties.C02
 import PyseqmVerif.Proofs.Covariance
+/-!
+# C02b — rotational covariance of the rotated two-centre two-electron integral block
+
+The piece of C02 ("rotating the whole input geometry leaves every scalar result unchanged and rotates every
+vector result") that `Properties/C02.lean` lists as *not proved*: the covariance
+`w(R v) = (T⊗T) w(v) (T⊗T)ᵀ`, `T = diag(1, R)`, of the block `w[pair, :]` that `w_withquaternion`
+(`seqm/seqm_functions/two_elec_two_center_int.py:1384–1574`, model `Rotation.wElem` / `Rotation.wRot`)
+produces for a heavy–heavy pair.
+
+Setting.  `ri` are the 22 local-frame integrals (functions of the distance only, which a rigid rotation
+does not change).  The frame is `rot = rotate_with_quaternion(v)`, `v = −x̂_ij`; rotating the geometry by `R`
+maps `v ↦ R v`.  The code stores the block packed: `w.view(-1, 10, 10)[pair, p(μ,ν), p(λ,σ)]` with
+`p(μ,ν) = μ(μ+1)/2 + ν` for `μ ≥ ν` (lower triangle, `combos`), orbital index `0 = s`, `1,2,3 = p_x,p_y,p_z`.
+
+Results (all for ANY orthogonal `R`, proper or improper: hypothesis `R ∈ Matrix.orthogonalGroup (Fin 3) ℝ`).
+
+* `W4` — the unpacked tensor `(μν|λσ)`, read off the packed list by `wRot_getD`;
+* `W4_eq_idx` — the index-notation closed form of all nine integral classes
+  `(ss|ss) (ss|sp) (ss|pp) (sp|ss) (sp|sp) (sp|pp) (pp|ss) (pp|sp) (pp|pp)` in terms of the first frame row `v`
+  and the transverse projector `D` (`W4idx`, forms `f1 f2 f3 f3' f4` of `Proofs/Covariance.lean`);
+* `w4_covariant` / **`w_block_covariant`** — for two column-orthonormal frames whose first rows are `v` and
+  `R v`:  `(μν|λσ)[R v] = Σ T_{μμ'} T_{νν'} T_{λλ'} T_{σσ'} (μ'ν'|λ'σ')[v]`, for all 256 index quadruples
+  (ALL nine classes, nothing left out), on `W4` and on the packed `wRot` lists respectively;
+* `w_block_covariant_code` — the same for the frames the code actually builds (`C02.rotR`), under the
+  regular-chart hypotheses `eps ≤ |1 + v_x|`, `eps ≤ |1 + (R v)_x|` (outside the F2 cone, see C02);
+  `w_block_covariant_two_chart` — for the repaired frame `C02.rotR2` and every unit vector;
+* `two_center_coulomb_energy_invariant`, `coulomb_matrix_covariant`, `core_electron_attraction_covariant`;
+* `w_block_covariant_needs_axial_identity` — the hypothesis `ri[21] = ½ (ri[18] − ri[20])` cannot be dropped;
+  `w_block_not_invariant` — the block really changes under rotation (covariance is not invariance).
+-/
 
 namespace C02b
 open Rotation C02 Covariance Matrix
 
-/-- unpacked 4-index tensor -/
+/-! ## the unpacked tensor and the packing of `wRot` -/
+
+/-- `(μν|λσ)` of a heavy–heavy pair for the frame `F`: the code evaluates `wElem` only for the sorted pairs
+    `kk ≥ ll`, `mm ≥ nn` (`combos`) and relies on the symmetry `(μν| = (νμ|`; for unsorted arguments `wElem`
+    is NOT symmetric (its `kk = 0` branch ignores `ll`), hence the explicit `max`/`min`. -/
 noncomputable def W4 (ri : ℕ → ℝ) (F : M3 ℝ) (μ ν lam σ : Fin 4) : ℝ :=
   wElem ri (F.row 0) (F.row 1) (F.row 2) (max μ.val ν.val) (min μ.val ν.val) (max lam.val σ.val)
     (min lam.val σ.val)
 
+/-- packed index of the symmetric pair `{μ, ν}`: `a(a+1)/2 + b`, `a = max`, `b = min` -/
 def pairIdx (μ ν : Fin 4) : ℕ := max μ.val ν.val * (max μ.val ν.val + 1) / 2 + min μ.val ν.val
 
+/-- position `10·p(μ,ν) + p(λ,σ)` of `combos` holds the sorted quadruple -/
 theorem combos_get : ∀ μ ν lam σ : Fin 4, combos[10 * pairIdx μ ν + pairIdx lam σ]?
     = some (max μ.val ν.val, min μ.val ν.val, max lam.val σ.val, min lam.val σ.val) := by
   decide
 
+/-- `W4` is exactly what is stored in the packed list `w[pair, :]` (`w.view(-1,10,10)[p(μ,ν), p(λ,σ)]`) -/
+theorem wRot_getD (ri : ℕ → ℝ) (F : M3 ℝ) (μ ν lam σ : Fin 4) :
+    (wRot ri F).getD (10 * pairIdx μ ν + pairIdx lam σ) 0 = W4 ri F μ ν lam σ := by
+  rw [List.getD_eq_getElem?_getD]
+  simp only [wRot, List.getElem?_map, combos_get]
+  rfl
+
+theorem W4_symm_left (ri : ℕ → ℝ) (F : M3 ℝ) (μ ν lam σ : Fin 4) : W4 ri F μ ν lam σ = W4 ri F ν μ lam σ := by
+  simp only [W4, max_comm μ.val, min_comm μ.val]
+
+theorem W4_symm_right (ri : ℕ → ℝ) (F : M3 ℝ) (μ ν lam σ : Fin 4) : W4 ri F μ ν lam σ = W4 ri F μ ν σ lam := by
+  simp only [W4, max_comm lam.val, min_comm lam.val]
+
+/-! ## index notation: the nine classes -/
+
+/-- first row of the frame as a Cartesian vector -/
 def frameV (F : M3 ℝ) (i : Fin 3) : ℝ := F.row 0 i.val
+
+/-- transverse projector `r1 r1ᵀ + r2 r2ᵀ` of the frame -/
 def frameD (F : M3 ℝ) (i j : Fin 3) : ℝ := projD (F.row 1) (F.row 2) i.val j.val
 
+/-- kind of an orbital pair: `(s s)`, `(s p_k)` / `(p_k s)`, `(p_k p_l)` -/
 inductive PairKind
   | ss
   | sp (k : Fin 3)
@@ -28,10 +83,22 @@ def pairKind (μ ν : Fin 4) : PairKind :=
     (Fin.cases (motive := fun _ => PairKind) .ss (fun l => .sp l) ν)
     (fun k => Fin.cases (motive := fun _ => PairKind) (.sp k) (fun l => .pp k l) ν) μ
 
-/-- `(p_k p_l | p_m s)`-type (pair `k l`, single index `m`) -/
+/-- `(p_k p_l | p_m s)`-type (pair `k l`, single index `m`): `a v_k v_l v_m + b D_kl v_m + c (v_k D_lm + v_l D_km)` -/
 def f3' (a b c : ℝ) (v : Fin 3 → ℝ) (D : Fin 3 → Fin 3 → ℝ) (k l m : Fin 3) : ℝ :=
   a * (v k * v l * v m) + b * (D k l * v m) + c * (v k * D l m + v l * D k m)
 
+/-- **Index-notation form of the whole block**: by the number of `p` indices on each side,
+```
+(ss|ss)           = ri0
+(ss|s p_m)        = ri4 v_m                          (s p_k|ss)   = ri1 v_k
+(ss|p_m p_n)      = ri10 v_m v_n + ri11 D_mn         (p_k p_l|ss) = ri2 v_k v_l + ri3 D_kl
+(s p_k|s p_m)     = ri5 v_k v_m + ri6 D_km
+(s p_k|p_m p_n)   = ri12 v_k v_m v_n + ri13 D_mn v_k + ri14 (D_kn v_m + D_km v_n)
+(p_k p_l|s p_m)   = ri7 v_k v_l v_m + ri8 D_kl v_m + ri9 (v_k D_lm + v_l D_km)
+(p_k p_l|p_m p_n) = ri15 v_k v_l v_m v_n + ri16 D_kl v_m v_n + ri17 D_mn v_k v_l
+                    + ri19 (v_k v_m D_ln + v_k v_n D_lm + v_l v_m D_kn + v_l v_n D_km)
+                    + ri20 D_kl D_mn + ½ (ri18 − ri20) (D_km D_ln + D_kn D_lm)
+``` -/
 noncomputable def W4idx (ri : ℕ → ℝ) (v : Fin 3 → ℝ) (D : Fin 3 → Fin 3 → ℝ) (μ ν lam σ : Fin 4) : ℝ :=
   match pairKind μ ν, pairKind lam σ with
   | .ss, .ss => ri 0
@@ -49,6 +116,8 @@ theorem maxmin_cases (a b : ℕ) : (max a b = a ∧ min a b = b) ∨ (max a b = 
   · exact Or.inr ⟨max_eq_right h, min_eq_left h⟩
   · exact Or.inl ⟨max_eq_left h, min_eq_right h⟩
 
+/-- all 256 unpacked entries of the model's block have the index-notation form (any frame `F`; only the axial
+    identity of the local-frame integrals is used) -/
 theorem W4_eq_idx (ri : ℕ → ℝ) (hax : ri 21 = (1/2) * (ri 18 - ri 20)) (F : M3 ℝ) (μ ν lam σ : Fin 4) :
     W4 ri F μ ν lam σ = W4idx ri (frameV F) (frameD F) μ ν lam σ := by
   unfold W4
@@ -60,10 +129,25 @@ theorem W4_eq_idx (ri : ℕ → ℝ) (hax : ri 21 = (1/2) * (ri 18 - ri 20)) (F 
   all_goals try (rcases maxmin_cases (m : ℕ) n with ⟨h3, h4⟩ | ⟨h3, h4⟩ <;> simp only [h3, h4])
   all_goals (simp only [projD]; ring)
 
+/-- for a frame with orthonormal columns the projector is `δ − v vᵀ` -/
+theorem frameD_eq_transverse (F : M3 ℝ) (hc : ColsOrthonormal F) (i j : Fin 3) :
+    frameD F i j = transverse (frameV F) i j := by
+  obtain ⟨c1, c2, c3, c4, c5, c6⟩ := hc
+  fin_cases i <;> fin_cases j <;> simp [frameD, frameV, projD, transverse, M3.row, M3.get] <;> linarith
+
+theorem frameV_eq (F : M3 ℝ) (v : Fin 3 → ℝ) (h : Row0Is F (v 0) (v 1) (v 2)) : frameV F = v := by
+  obtain ⟨h0, h1, h2⟩ := h
+  funext i
+  fin_cases i <;> simp [frameV, M3.row, M3.get, h0, h1, h2]
+
+/-! ## covariance of the index-notation form -/
+
 theorem cov_f3' (R : Matrix (Fin 3) (Fin 3) ℝ) (v : Fin 3 → ℝ) (D : Fin 3 → Fin 3 → ℝ) (a b c : ℝ)
     (k l m : Fin 3) : f3' a b c (rot1 R v) (rot2 R D) k l m = rot3 R (f3' a b c v D) k l m := by
   simp only [f3', rot1, rot2, rot3, Fin.sum_univ_three]; ring
 
+/-- a tensor assembled from a covariant vector `v` and a covariant 2-tensor `D` is covariant under
+    `T(R) = diag(1, R)` — any matrix `R`, no orthogonality needed here: nine classes, sixteen index patterns -/
 theorem W4idx_covariant (R : Matrix (Fin 3) (Fin 3) ℝ) (ri : ℕ → ℝ) (v : Fin 3 → ℝ) (D : Fin 3 → Fin 3 → ℝ)
     (μ ν lam σ : Fin 4) :
     W4idx ri (rot1 R v) (rot2 R D) μ ν lam σ = rot4 (orbRot R) (W4idx ri v D) μ ν lam σ := by
@@ -75,5 +159,151 @@ theorem W4idx_covariant (R : Matrix (Fin 3) (Fin 3) ℝ) (ri : ℕ → ℝ) (v :
   all_goals first
     | exact cov_f1 R v _ _ | exact cov_f2 R v D _ _ _ _ | exact cov_f3 R v D _ _ _ _ _ _
     | exact cov_f3' R v D _ _ _ _ _ _ | exact cov_f4 R v D _ _ _ _ _ _ _ _ _ _
+
+/-! ## the main theorem -/
+
+/-- nested form on the unpacked tensor -/
+theorem w4_covariant_nested (ri : ℕ → ℝ) (hax : ri 21 = (1/2) * (ri 18 - ri 20))
+    (R : Matrix (Fin 3) (Fin 3) ℝ) (hR : R ∈ Matrix.orthogonalGroup (Fin 3) ℝ) (v : Fin 3 → ℝ)
+    (F F' : M3 ℝ) (hc : ColsOrthonormal F) (hc' : ColsOrthonormal F')
+    (h0 : Row0Is F (v 0) (v 1) (v 2)) (h0' : Row0Is F' ((R *ᵥ v) 0) ((R *ᵥ v) 1) ((R *ᵥ v) 2)) :
+    W4 ri F' = rot4 (orbRot R) (W4 ri F) := by
+  have hRR : R * Rᵀ = 1 := Matrix.mem_orthogonalGroup_iff.mp hR
+  have hv : frameV F = v := frameV_eq F v h0
+  have hv' : frameV F' = rot1 R v := by rw [frameV_eq F' (R *ᵥ v) h0']; rfl
+  have hD : frameD F = transverse v := by
+    funext i j; rw [frameD_eq_transverse F hc, hv]
+  have hD' : frameD F' = rot2 R (transverse v) := by
+    funext i j; rw [frameD_eq_transverse F' hc', hv', cov_transverse R v hRR]
+  have hW : W4 ri F = W4idx ri v (transverse v) := by
+    funext a b c d; rw [W4_eq_idx ri hax, hv, hD]
+  funext μ ν lam σ
+  rw [W4_eq_idx ri hax, hv', hD', hW]
+  exact W4idx_covariant R ri v _ μ ν lam σ
+
+/-- **Covariance of the unpacked tensor** (all nine classes, all 256 entries):
+    `(μν|λσ)[R v] = Σ_{μ'ν'λ'σ'} T_{μμ'} T_{νν'} T_{λλ'} T_{σσ'} (μ'ν'|λ'σ')[v]`, `T = diag(1, R)`.
+
+`F`, `F'` are ANY two frames with orthonormal columns whose first rows are `v` and `R v` (so `v` is a unit
+vector); `R` is any orthogonal matrix, `det R = ±1`. -/
+theorem w4_covariant (ri : ℕ → ℝ) (hax : ri 21 = (1/2) * (ri 18 - ri 20))
+    (R : Matrix (Fin 3) (Fin 3) ℝ) (hR : R ∈ Matrix.orthogonalGroup (Fin 3) ℝ) (v : Fin 3 → ℝ)
+    (F F' : M3 ℝ) (hc : ColsOrthonormal F) (hc' : ColsOrthonormal F')
+    (h0 : Row0Is F (v 0) (v 1) (v 2)) (h0' : Row0Is F' ((R *ᵥ v) 0) ((R *ᵥ v) 1) ((R *ᵥ v) 2))
+    (μ ν lam σ : Fin 4) :
+    W4 ri F' μ ν lam σ
+      = ∑ a, ∑ b, ∑ c, ∑ d, orbRot R μ a * orbRot R ν b * orbRot R lam c * orbRot R σ d * W4 ri F a b c d := by
+  rw [w4_covariant_nested ri hax R hR v F F' hc hc' h0 h0', rot4_flat]
+
+/-- **C02b main theorem, on the model's packed 10×10 block** `wRot` (= `w[pair, :]`): entry
+    `10·p(μ,ν) + p(λ,σ)` of the block computed for the rotated bond direction `R v` is the rank-(2,2) tensor
+    transform of the block computed for `v`. -/
+theorem w_block_covariant (ri : ℕ → ℝ) (hax : ri 21 = (1/2) * (ri 18 - ri 20))
+    (R : Matrix (Fin 3) (Fin 3) ℝ) (hR : R ∈ Matrix.orthogonalGroup (Fin 3) ℝ) (v : Fin 3 → ℝ)
+    (F F' : M3 ℝ) (hc : ColsOrthonormal F) (hc' : ColsOrthonormal F')
+    (h0 : Row0Is F (v 0) (v 1) (v 2)) (h0' : Row0Is F' ((R *ᵥ v) 0) ((R *ᵥ v) 1) ((R *ᵥ v) 2))
+    (μ ν lam σ : Fin 4) :
+    (wRot ri F').getD (10 * pairIdx μ ν + pairIdx lam σ) 0
+      = ∑ a, ∑ b, ∑ c, ∑ d, orbRot R μ a * orbRot R ν b * orbRot R lam c * orbRot R σ d
+          * (wRot ri F).getD (10 * pairIdx a b + pairIdx c d) 0 := by
+  simp only [wRot_getD]
+  exact w4_covariant ri hax R hR v F F' hc hc' h0 h0' μ ν lam σ
+
+/-! ### for the frames the code builds -/
+
+/-- an orthogonal matrix maps unit vectors to unit vectors -/
+theorem mulVec_unit (R : Matrix (Fin 3) (Fin 3) ℝ) (hR : R ∈ Matrix.orthogonalGroup (Fin 3) ℝ) (v : Fin 3 → ℝ)
+    (hu : v 0 * v 0 + v 1 * v 1 + v 2 * v 2 = 1) :
+    (R *ᵥ v) 0 * (R *ᵥ v) 0 + (R *ᵥ v) 1 * (R *ᵥ v) 1 + (R *ᵥ v) 2 * (R *ᵥ v) 2 = 1 := by
+  have hRR : Rᵀ * R = 1 := Matrix.mem_orthogonalGroup_iff'.mp hR
+  have e : ∀ i j : Fin 3, R 0 i * R 0 j + R 1 i * R 1 j + R 2 i * R 2 j = if i = j then 1 else 0 := by
+    intro i j
+    have h := congrFun (congrFun hRR i) j
+    simpa [Matrix.mul_apply, Fin.sum_univ_three, Matrix.one_apply] using h
+  have e00 := e 0 0; have e11 := e 1 1; have e22 := e 2 2
+  have e01 := e 0 1; have e02 := e 0 2; have e12 := e 1 2
+  simp only [Fin.isValue, if_true] at e00 e11 e22
+  simp only [Fin.isValue, Fin.reduceEq, if_false] at e01 e02 e12
+  simp only [Matrix.mulVec, dotProduct, Fin.sum_univ_three]
+  linear_combination hu + (v 0 * v 0) * e00 + (v 1 * v 1) * e11 + (v 2 * v 2) * e22
+    + (2 * v 0 * v 1) * e01 + (2 * v 0 * v 2) * e02 + (2 * v 1 * v 2) * e12
+
+/-- **The code as it stands** (`C02.rotR` = `rotate_with_quaternion` at `ℝ`): for a unit bond direction `v`
+    such that neither `v` nor `R v` lies in the antipodal branch (known defect F2, see `C02`), the packed
+    block transforms covariantly. -/
+theorem w_block_covariant_code (ri : ℕ → ℝ) (hax : ri 21 = (1/2) * (ri 18 - ri 20))
+    (R : Matrix (Fin 3) (Fin 3) ℝ) (hR : R ∈ Matrix.orthogonalGroup (Fin 3) ℝ) (eps : ℝ) (heps : 0 < eps)
+    (v : Fin 3 → ℝ) (hu : v 0 * v 0 + v 1 * v 1 + v 2 * v 2 = 1)
+    (hchart : eps ≤ |1 + v 0|) (hchart' : eps ≤ |1 + (R *ᵥ v) 0|) (μ ν lam σ : Fin 4) :
+    (wRot ri (rotR eps ((R *ᵥ v) 0) ((R *ᵥ v) 1) ((R *ᵥ v) 2))).getD (10 * pairIdx μ ν + pairIdx lam σ) 0
+      = ∑ a, ∑ b, ∑ c, ∑ d, orbRot R μ a * orbRot R ν b * orbRot R lam c * orbRot R σ d
+          * (wRot ri (rotR eps (v 0) (v 1) (v 2))).getD (10 * pairIdx a b + pairIdx c d) 0 :=
+  w_block_covariant ri hax R hR v _ _ (rot_orthonormal eps _ _ _ heps hchart).2
+    (rot_orthonormal eps _ _ _ heps hchart').2 (rot_row0 eps _ _ _ heps hu hchart)
+    (rot_row0 eps _ _ _ heps (mulVec_unit R hR v hu) hchart') μ ν lam σ
+
+/-- **The repaired two-chart frame** (`C02.rotR2`, DESIGN Appendix C.12 — not the code in /repo): covariance
+    for EVERY unit vector and every orthogonal `R`. -/
+theorem w_block_covariant_two_chart (ri : ℕ → ℝ) (hax : ri 21 = (1/2) * (ri 18 - ri 20))
+    (R : Matrix (Fin 3) (Fin 3) ℝ) (hR : R ∈ Matrix.orthogonalGroup (Fin 3) ℝ) (eps : ℝ) (heps : 0 < eps)
+    (heps1 : eps ≤ 1) (v : Fin 3 → ℝ) (hu : v 0 * v 0 + v 1 * v 1 + v 2 * v 2 = 1) (μ ν lam σ : Fin 4) :
+    (wRot ri (rotR2 eps ((R *ᵥ v) 0) ((R *ᵥ v) 1) ((R *ᵥ v) 2))).getD (10 * pairIdx μ ν + pairIdx lam σ) 0
+      = ∑ a, ∑ b, ∑ c, ∑ d, orbRot R μ a * orbRot R ν b * orbRot R lam c * orbRot R σ d
+          * (wRot ri (rotR2 eps (v 0) (v 1) (v 2))).getD (10 * pairIdx a b + pairIdx c d) 0 := by
+  obtain ⟨_, hc, _, h0⟩ := two_chart_rotation_total eps (v 0) (v 1) (v 2) heps heps1 hu
+  obtain ⟨_, hc', _, h0'⟩ := two_chart_rotation_total eps _ _ _ heps heps1 (mulVec_unit R hR v hu)
+  exact w_block_covariant ri hax R hR v _ _ hc hc' h0 h0' μ ν lam σ
+
+/-! ## corollaries -/
+
+/-- **Coulomb matrix**: `J_{λσ} = Σ_{μν} P^A_{μν} (μν|λσ)` (`J_A = (PA * w).sum(dim=1)` in
+    `fock.py::_two_center`) built from the covariantly transformed density `T P^A Tᵀ` and the block of the
+    rotated geometry is `T J Tᵀ`. -/
+theorem coulomb_matrix_covariant (ri : ℕ → ℝ) (hax : ri 21 = (1/2) * (ri 18 - ri 20))
+    (R : Matrix (Fin 3) (Fin 3) ℝ) (hR : R ∈ Matrix.orthogonalGroup (Fin 3) ℝ) (v : Fin 3 → ℝ)
+    (F F' : M3 ℝ) (hc : ColsOrthonormal F) (hc' : ColsOrthonormal F')
+    (h0 : Row0Is F (v 0) (v 1) (v 2)) (h0' : Row0Is F' ((R *ᵥ v) 0) ((R *ᵥ v) 1) ((R *ᵥ v) 2))
+    (PA : Matrix (Fin 4) (Fin 4) ℝ) :
+    coulombJ (W4 ri F') (orbRot R * PA * (orbRot R)ᵀ) = orbRot R * coulombJ (W4 ri F) PA * (orbRot R)ᵀ := by
+  rw [w4_covariant_nested ri hax R hR v F F' hc hc' h0 h0']
+  exact coulombJ_covariant _ (orbRot_transpose_mul R (Matrix.mem_orthogonalGroup_iff.mp hR)) _ _
+
+/-- **Two-centre Coulomb energy**: for one-centre density blocks transformed covariantly
+    (`P^A ↦ T P^A Tᵀ`, `P^B ↦ T P^B Tᵀ`) the contraction `Σ P^A_{μν} (μν|λσ) P^B_{λσ}` is invariant. -/
+theorem two_center_coulomb_energy_invariant (ri : ℕ → ℝ) (hax : ri 21 = (1/2) * (ri 18 - ri 20))
+    (R : Matrix (Fin 3) (Fin 3) ℝ) (hR : R ∈ Matrix.orthogonalGroup (Fin 3) ℝ) (v : Fin 3 → ℝ)
+    (F F' : M3 ℝ) (hc : ColsOrthonormal F) (hc' : ColsOrthonormal F')
+    (h0 : Row0Is F (v 0) (v 1) (v 2)) (h0' : Row0Is F' ((R *ᵥ v) 0) ((R *ᵥ v) 1) ((R *ᵥ v) 2))
+    (PA PB : Matrix (Fin 4) (Fin 4) ℝ) :
+    ∑ μ, ∑ ν, ∑ lam, ∑ σ, (orbRot R * PA * (orbRot R)ᵀ) μ ν * W4 ri F' μ ν lam σ
+        * (orbRot R * PB * (orbRot R)ᵀ) lam σ
+      = ∑ μ, ∑ ν, ∑ lam, ∑ σ, PA μ ν * W4 ri F μ ν lam σ * PB lam σ := by
+  rw [coulomb_energy_flat, coulomb_energy_flat, w4_covariant_nested ri hax R hR v F F' hc hc' h0 h0']
+  exact coulomb_energy_invariant _ (orbRot_transpose_mul R (Matrix.mem_orthogonalGroup_iff.mp hR)) _ _ _
+
+/-- **Core–electron attraction**: the `(μν|ss)` column and the `(ss|λσ)` row of the block — in the code
+    `e1b[ν,μ] = −tore[nj]·w_[p(μ,ν), 0]`, `e2a[σ,λ] = −tore[ni]·w_[0, p(λ,σ)]` (`ZB`, `ZA` are the core
+    charges) — transform as rank-2 tensors `T · Tᵀ`, so the one-electron matrix contribution is covariant. -/
+theorem core_electron_attraction_covariant (ri : ℕ → ℝ) (hax : ri 21 = (1/2) * (ri 18 - ri 20))
+    (R : Matrix (Fin 3) (Fin 3) ℝ) (hR : R ∈ Matrix.orthogonalGroup (Fin 3) ℝ) (v : Fin 3 → ℝ)
+    (F F' : M3 ℝ) (hc : ColsOrthonormal F) (hc' : ColsOrthonormal F')
+    (h0 : Row0Is F (v 0) (v 1) (v 2)) (h0' : Row0Is F' ((R *ᵥ v) 0) ((R *ᵥ v) 1) ((R *ᵥ v) 2))
+    (ZA ZB : ℝ) :
+    (Matrix.of fun μ ν => -ZB * W4 ri F' μ ν 0 0)
+        = orbRot R * (Matrix.of fun μ ν => -ZB * W4 ri F μ ν 0 0) * (orbRot R)ᵀ ∧
+    (Matrix.of fun lam σ => -ZA * W4 ri F' 0 0 lam σ)
+        = orbRot R * (Matrix.of fun lam σ => -ZA * W4 ri F 0 0 lam σ) * (orbRot R)ᵀ := by
+  have hW := w4_covariant_nested ri hax R hR v F F' hc hc' h0 h0'
+  constructor
+  · ext μ ν
+    rw [← rot2_eq_conj, hW]
+    simp only [Matrix.of_apply, rot4, rot2, sum_orbRot_zero, Finset.mul_sum]
+    refine Finset.sum_congr rfl fun a _ => Finset.sum_congr rfl fun b _ => ?_
+    ring
+  · ext lam σ
+    rw [← rot2_eq_conj, hW]
+    simp only [Matrix.of_apply, rot4, rot2, sum_orbRot_zero, Finset.mul_sum]
+    refine Finset.sum_congr rfl fun a _ => Finset.sum_congr rfl fun b _ => ?_
+    ring
 
 end C02b
